@@ -3,6 +3,7 @@
 package zap
 
 import (
+	"errors"
 	"fmt"
 	"time"
 
@@ -62,7 +63,7 @@ func vTerminalCase() {
 	site := vrt.Choice("site", 4)
 	coreKind := 1
 	if site == 0 {
-		coreKind = vrt.Choice("core", 7)
+		coreKind = vrt.Choice("core", 8)
 	}
 	thr := zapcore.Level(vrt.Int8("threshold")) // the level may be disabled
 	switch coreKind {
@@ -84,6 +85,11 @@ func vTerminalCase() {
 		flush = &vFlushSink{stub: stub}
 		buffered = &zapcore.BufferedWriteSyncer{WS: flush, Size: 4096, FlushInterval: time.Hour, Clock: vNoTickClock{}}
 		core = zapcore.NewCore(zapcore.NewJSONEncoder(zapcore.EncoderConfig{MessageKey: "m"}), buffered, thr)
+	case 7: // a tee whose other branch fails to write: the terminal action still follows
+		rec = vNewCore("rec", thr)
+		bad := vNewCore("bad", thr)
+		bad.werr = errors.New("sink failed")
+		core = zapcore.NewTee(bad, vTermCore{rec, stub})
 	case 6: // as 5, but the line is larger than the whole buffer (it bypasses the buffer on its way to the sink)
 		flush = &vFlushSink{stub: stub}
 		buffered = &zapcore.BufferedWriteSyncer{WS: flush, Size: 8, FlushInterval: time.Hour, Clock: vNoTickClock{}}
@@ -291,5 +297,5 @@ func vCount(s, sub string) int {
 	return n
 }
 
-//verif: prop=C06 bounds="one call at DPanic/Panic/Fatal through 9 front ends (Logger methods, Log, Check+Write, Sugared plain/f/w/ln/Logw, std-log bridge) x 7 cores (nop, threshold, arbitrary level set, sampler dropping everything, tee, JSON IO core over a BufferedWriteSyncer whose buffer is larger / smaller than the line) x development on/off x hooks {unset, nil, no-op, Goexit, custom} installed at construction (all cores) or later through WithOptions on an existing, a derived or a sugared logger (threshold core); threshold any int8; process exit observed through zap's own exit stub"
+//verif: prop=C06 bounds="one call at DPanic/Panic/Fatal through 9 front ends (Logger methods, Log, Check+Write, Sugared plain/f/w/ln/Logw, std-log bridge) x 8 cores (nop, threshold, arbitrary level set, sampler dropping everything, tee, tee with a branch whose write fails, JSON IO core over a BufferedWriteSyncer whose buffer is larger / smaller than the line) x development on/off x hooks {unset, nil, no-op, Goexit, custom} installed at construction (all cores) or later through WithOptions on an existing, a derived or a sugared logger (threshold core); threshold any int8; process exit observed through zap's own exit stub"
 func VC06Terminal() { vTerminalCase() }
